@@ -108,6 +108,8 @@ func verifC20(nInvocations int) {
 	hfh.metricsSem = make(chan struct{}, 2)
 	hfh.metricsSem <- struct{}{}
 	hfh.metricsSem <- struct{}{}
+	hfh.metricsMergingSem = make(chan struct{}, 1)
+	hfh.metricsMergingSem <- struct{}{}
 
 	var dispatched, flushedUpTo int64 // counter totals: dispatched so far / dispatched before the latest runtime-done
 	delivered := func() int64 {
@@ -139,13 +141,13 @@ func verifC20(nInvocations int) {
 		runErr = m.Run(ctx)
 		finished = true
 	}()
-	verifYield()
+	verifSettle()
 	verifAdvanceTime() // the 100 ms start-up window passes without a server error
-	verifYield()
+	verifSettle()
 	for i := 0; i < nInvocations; i++ {
 		verifAssert(rt.nextCalls == i+1, "the extension is waiting in GET /next between invocations")
 		rt.events <- "INVOKE"
-		verifYield()
+		verifSettle()
 		// the function runs and emits datapoints
 		n := nondetIntIn(0, 2)
 		for j := 0; j < n; j++ {
@@ -160,13 +162,13 @@ func verifC20(nInvocations int) {
 		body := verifTelemetryBatches[nondetIntIn(0, len(verifTelemetryBatches)-1)]
 		req, _ := http.NewRequest("POST", "http://sandbox:8083/telemetry", bytes.NewReader([]byte(body)))
 		ts.VerifEventHandler(&verifRespWriter{hdr: http.Header{}}, req)
-		verifYield()
+		verifSettle()
 	}
 	verifAssert(rt.nextCalls == nInvocations+1, "after the last invocation's flush the extension asks for the next event")
 	rt.events <- "SHUTDOWN"
-	verifYield()
+	verifSettle()
 	cancel()
-	verifYield()
+	verifSettle()
 	verifAssert(finished, "the manager returns after SHUTDOWN and cancellation")
 	verifAssert(runErr == nil || errors.Is(runErr, context.Canceled), "a clean shutdown is not an error")
 	verifAssert(rt.initErrs == 0, "no init error is reported when the server started")
